@@ -251,7 +251,7 @@ fn oracle_early(ctx: &mut Ctx, idx: usize, kc: &KCase, o: &Outcome) -> bool {
                 // Ok without routes, or "no path" through the edge-oriented wrapper
                 let fine = match o {
                     Outcome::Ok(r) => r.routes.len() <= 1,
-                    Outcome::Err(k) => k == "nopath" || k == "internal" || k.starts_with("terminated"),
+                    Outcome::Err(k) => !k.starts_with("panic"),
                 };
                 if !fine {
                     ctx.fail(idx, "config/nested-k-0-unexpected", format!("{:?}", got));
@@ -271,6 +271,8 @@ pub struct KExec {
     pub pops: Vec<usize>,
     /// number of run_a_star calls
     pub runs: usize,
+    /// expansions recorded per run_a_star call (before any final pop is appended)
+    pub expansions: Vec<usize>,
 }
 
 /// run the real KSP algorithm (hooks on).  Only ever called in-process for single-via.
@@ -278,7 +280,7 @@ pub fn exec_ksp(kc: &KCase, b: &Built, sim: &Option<Sim>) -> KExec {
     let c = &kc.base;
     let alg = match make_alg(kc, sim) {
         Ok(a) => a,
-        Err(_) => return KExec { outcome: Outcome::Err("cfgerr".into()), scheds: vec![], pops: vec![], runs: 0 },
+        Err(_) => return KExec { outcome: Outcome::Err("cfgerr".into()), scheds: vec![], pops: vec![], runs: 0, expansions: vec![] },
     };
     let mut query = b.query.clone();
     if let Some(k) = &kc.query_k {
@@ -333,7 +335,8 @@ pub fn exec_ksp(kc: &KCase, b: &Built, sim: &Option<Sim>) -> KExec {
         }
     };
     let runs = scheds.len();
-    KExec { outcome, scheds, pops, runs }
+    let expansions = scheds.iter().map(|s| s.len()).collect();
+    KExec { outcome, scheds, pops, runs, expansions }
 }
 
 fn clock_of(t: &Term) -> Option<(u64, u64)> {
@@ -352,15 +355,13 @@ fn fix_scheds_single_via(kc: &KCase, ex: &mut KExec) {
     if s == t {
         return;
     }
-    // a failed reverse run no longer fails the query: the result then carries the forward tree alone
-    let both_trees = matches!(&ex.outcome, Outcome::Ok(r) if r.trees.len() == 2);
-    if ex.scheds.len() >= 2 {
-        // the reverse run started, so the forward run returned Ok
-        ex.scheds[0].push(t);
-        // every failure after a successful reverse run happens inside the loop, after a recorded pop
-        if both_trees || !ex.pops.is_empty() {
-            ex.scheds[1].push(s);
-        }
+    // the model reads a schedule only as far as the run goes (a failed run stops before the final pop), so
+    // the final pop of the run's target is appended to both runs whatever became of them
+    if let Some(f) = ex.scheds.get_mut(0) {
+        f.push(t);
+    }
+    if let Some(r) = ex.scheds.get_mut(1) {
+        r.push(s);
     }
 }
 
@@ -2277,13 +2278,11 @@ fn oracle_c10_ksp(ctx: &mut Ctx, idx: usize, kc: &KCase, ex: &KExec, unlimited: 
     if ls.is_empty() || ex.scheds.is_empty() {
         return;
     }
-    // the hook records expansions; `fix_scheds` appended the final pop of a reached target to runs that returned
-    let t = inner_target(c);
-    for (i, sc) in ex.scheds.iter().enumerate() {
-        let expansions = if sc.last().cloned() == t && !sc.is_empty() { sc.len() - 1 } else { sc.len() };
+    // the hook records the expansions of every run_a_star call
+    for (i, expansions) in ex.expansions.iter().enumerate() {
         for l in &ls {
             if let Term::Iters(lim) = l {
-                if expansions as u64 > *lim {
+                if *expansions as u64 > *lim {
                     ctx.fail(idx, "limit/iterations-exceeded", format!("underlying search #{} of the k-shortest-paths query made {} expansions under limit {}", i, expansions, lim));
                 }
             }
